@@ -50,7 +50,7 @@ def required_regimes(tier):
             need.add('c%s:%s' % (m, t))
     need.add('2d:h!=w')
     need.add('reflect:allowed_raise')
-    need |= {'variant:N=1', 'variant:C=2', 'variant:no_grad'}
+    need |= {'variant:N=1', 'variant:C=2', 'variant:no_grad', 'variant:positional'}
     # reflect with a level shorter than the filter always raises in the implementation (allowed by C01)
     return need - {'reflect:lt_L', 'rreflect:lt_L', 'creflect:lt_L'}
 
@@ -103,6 +103,19 @@ def _shape_variants(res, cfg, tags, call, X, impl):
             res.violation('analysis_vs_pywt', dict(cfg, variant='no_grad'), {'kind': 'value_or_shape', 'what': 'result under no_grad differs'}, tags)
             return
     res.regime('variant:no_grad')
+    if 'mode' in cfg and 'wave' in cfg:
+        # the documented positional order (J, wave, mode) means the same as the keywords
+        import torch as _t2
+        from pytorch_wavelets import DWT1DForward as _F1, DWTForward as _F2
+        try:
+            m_ = (_F1 if cfg['dim'] == 1 else _F2)(cfg['J'], cfg['wave'], cfg['mode'])
+            yl_, yh_ = m_(_t2.as_tensor(X))
+            pos = [yl_.numpy()] + ([h_.numpy() for h_ in yh_] if cfg['dim'] == 1 else [h_.numpy()[:, :, k] for h_ in yh_ for k in range(3)])
+            res.regime('variant:positional')
+            if len(pos) != len(impl) or any(a_.shape != b_.shape or not np.array_equal(a_, b_) for a_, b_ in zip(pos, impl)):
+                res.violation('analysis_vs_pywt', dict(cfg, variant='positional arguments'), {'kind': 'value_or_shape', 'what': 'DWT(1D)Forward(J, wave, mode) differs from the keyword construction'}, tags)
+        except Exception as e:
+            res.violation('analysis_vs_pywt', dict(cfg, variant='positional arguments'), {'kind': 'raise', 'exc': repr(e)[:200]}, tags)
     for b1, b2, b in zip(one, two, impl):
         if b1.shape != b[:1].shape or common.maxabs(b1 - b[:1]) > common.TOL:
             res.violation('analysis_vs_pywt', dict(cfg, variant='N=1'), {'kind': 'value_or_shape', 'observed_shape': list(b1.shape), 'expected_shape': list(b[:1].shape)}, tags)
